@@ -336,6 +336,18 @@ def weave_file(file, src, fnspecs, blockitems, canary=False, degrade=(), extern=
         text = '\n' + '\n'.join(buf).rstrip() + '\n'
         add(b.open + 1, 0, text, ('contract', vfile, vline, None))
 
+    externalized = set()
+
+    def _externalize(f, key, ind):
+        """external_body fallback: the body is not verified AND not type-checked (it is replaced by `unimplemented!()`, line
+        structure kept) — a body Verus or rustc-under-the-stand-ins rejects must not take the rest of the file with it"""
+        ls = m.rfind('\n', 0, f.kw) + 1
+        add(ls, 0, ind + '#[verifier::external_body]\n', ('contract', 'auto', 0, None))
+        a, z = f.sig_end + 1, f.body_end
+        add(a, z - a, ' unimplemented!() ' + '\n' * src.count('\n', a, z), ('contract', 'auto', 0, None))
+        skipped.append((key, 'body not verified: Verus rejects a construct in it (external_body fallback, body replaced by unimplemented!())'))
+        externalized.add(f.kw)
+
     for spec in fnspecs:
         if spec.file != file:
             continue
@@ -390,9 +402,7 @@ def weave_file(file, src, fnspecs, blockitems, canary=False, degrade=(), extern=
             if not any(q.header.startswith(pre0) for q in loops0):
                 restructured[key] = 'loop %r of the contract is no longer in the body' % L0['prefix']
         if key in extern:
-            ls = m.rfind('\n', 0, f.kw) + 1
-            add(ls, 0, ind + '#[verifier::external_body]\n', ('contract', 'auto', 0, None))
-            skipped.append((key, 'body not verified: Verus rejects a construct in it (external_body fallback)'))
+            _externalize(f, key, ind)
             continue
         if key in degrade:
             skipped.append((key, 'all body-level hints dropped: they no longer type-check against the changed body'))
@@ -522,6 +532,15 @@ def weave_file(file, src, fnspecs, blockitems, canary=False, degrade=(), extern=
             else:
                 add(z, 0, '\n' + text, ('contract', spec.vfile, ins['vline'], None, ins.get('props')))
 
+    # uncontracted functions whose text Verus rejects: same fallback
+    if extern:
+        for f, b in allf:
+            if not f.has_body or f.kw in externalized or f.kw in contracted:
+                continue
+            k0 = FnSpec(file, b.header if b else '', f.name, '', 0).key
+            if k0 in extern:
+                _externalize(f, k0, ' ' * (f.kw - (m.rfind('\n', 0, f.kw) + 1)))
+
     # functions with `while`/`loop` loops that get no decreases from a contract: termination is not verified
     spec_by_kw = {}
     for spec in fnspecs:
@@ -547,7 +566,7 @@ def weave_file(file, src, fnspecs, blockitems, canary=False, degrade=(), extern=
     canary_pos = {}
     if canary:
         for f, b in allf:
-            if f.has_body and f.kw in contracted:
+            if f.has_body and f.kw in contracted and f.kw not in externalized:
                 add(f.sig_end + 1, 0, '\nproof { assert(false); } // vacuity canary\n', ('canary', contracted[f.kw]))
 
     # ---- apply edits, tracking origins per output line ----
